@@ -47,6 +47,8 @@ class ExpressionSolver:
 
     def solve(self, expr:Union[str,Expression]):
         self.expr = Expression(expr) if isinstance(expr, str) else expr
+        # Start from empty token buffers: a previous call that failed part-way leaves its tokens behind
+        self.tokens.left, self.tokens.right = [], []
         
         # Tokenize expression
         while self.expr.right:
